@@ -148,6 +148,12 @@ func (g *Group) optionByName(name string, namematch func(*Option, string) bool) 
 	prio := 0
 	var retopt *Option
 
+	// An empty name denotes no option (it would otherwise equal the absent
+	// ini-name or long name of any option that lacks one)
+	if len(name) == 0 {
+		return nil
+	}
+
 	g.eachGroup(func(g *Group) {
 		for _, opt := range g.options {
 			if namematch != nil && namematch(opt, name) && prio < 4 {
